@@ -266,6 +266,9 @@ impl Prop for C19 {
     fn id(&self) -> &'static str {
         "C19"
     }
+    fn fuzz_target(&self) -> Option<&'static str> {
+        Some("tape")
+    }
     fn rule(&self) -> String {
         "(i) every rule of create_rewrites(): all assignments of its width parameters in 1..=5 (quick) / 1..=7 (thorough) x both values of every sign parameter (exhaustive), plus condition-directed samples with widths up to 48 (base parameters drawn small, then each condition parameter is scanned over its domain and a satisfying value is chosen, so every sample satisfies eval_condition); patterns are instantiated by the harness and lowered with from_arith; where the side condition holds both sides must have width wo, type-check, and agree under ALL operand values when they total <= 12 bits (16 in the thorough tier), else under 4096 corner-biased samples (reference evaluator). (ii) expressions of the convertible fragment (add/sub/mul/shl/lshr/ashr over symbols or nested operations under zero/sign extension, nested same-kind and mixed extensions with low weight): from_arith(to_arith(e)) has the same width and is reference-evaluator-equal. Non-trivial: (i) instantiation with condition true and not all width parameters equal, (ii) expression with >= 2 operators and >= 1 sign extension; distinct by hash.".into()
     }
